@@ -84,7 +84,15 @@ func modeCfgs(e *Env) []Cfg {
 		return res
 	}
 	seen := map[string]bool{}
-	for _, c := range quickCfgs(e.Seed) {
+	// six base configurations x three modes: one full-policy build first (its none build is where the
+	// manifests meet the full-policy profiles), three rotating distribution defaults, two of the seeded cover
+	q := quickCfgs(e.Seed)
+	bases := []Cfg{{"debian", 3, "3.0", "none", true}}
+	for i := 0; i < 3; i++ {
+		bases = append(bases, DefaultCfg(Dists[(int(e.Seed)+i)%len(Dists)]))
+	}
+	bases = append(bases, q[len(Dists):]...)
+	for _, c := range bases {
 		for _, m := range []string{"none", "complain", "enforce"} {
 			c.Mode = m
 			if !seen[c.Key()] && len(seen) < 18 {
